@@ -46,7 +46,10 @@ def ilist(l):
 
 
 ALPHA = 'KRPDEA'
-NAMED = None
+# rules the independent Python reading below knows (a protease added upstream is still covered by the Lean table obligation)
+REF_RULES = {'arg-c', 'asp-n', 'chymotrypsin', 'chymotrypsin/P', 'promega-chymotrypsin-high-specificity',
+             'promega-chymotrypsin-low-specificity', 'glu-c', 'lys-c', 'lys-n', 'proteinase k', 'trypsin', 'trypsin/P',
+             'proalanase', 'elastase', 'pepsin', 'thermolysin', 'proalanase-low-specificity', 'non-specific', 'no-cleave'}
 
 
 def run(chk):
@@ -54,7 +57,18 @@ def run(chk):
     from peptacular.constants import PROTEASES
     tier = chk.tier
     rng = chk.rng
-    chk.lean_build(['PeptVerif.Props.C06'], DRV)
+    from .. import translate_proteases
+    prot_table, unmodelled = translate_proteases.translate(chk)
+    chk.lean_build(['PeptVerif.Props.C06', 'PeptVerif.Props.C06Regex'], DRV)
+    if chk.lean_problems:
+        # name the table entries that differ from the hand-typed reference (witness for proteases_match_reference)
+        try:
+            diff = chk.driver(DRV, ['protease_table_diff'])[0]
+            if diff:
+                chk.notes.append('protease table entries differing from Spec.referenceTable: ' + diff)
+                chk.lean_problems.append('Generated.proteases differs from Spec.referenceTable at: ' + diff)
+        except core.InfraError:
+            pass
     chk.trusted += [
         'regex -> cleavage sites is outside the Lean model: sites computed by the implementation are fed to the model; '
         'named proteases are compared with an independent Python reading of each rule',
@@ -141,7 +155,7 @@ def run(chk):
                        nontrivial_fn=lambda c, im: bool(im))
 
     # ---------------------------------------------------------------- (c) digest end to end
-    rules = list(PROTEASES.keys()) + ['(?<=K)(?=A)', '([KR])', '(D)(?=E)', 'K', '[DE]']
+    rules = [r for r in PROTEASES.keys() if r in REF_RULES] + ['(?<=K)(?=A)', '([KR])', '(D)(?=E)', 'K', '[DE]']
     dig = []
     L = 4 if tier == 'quick' else 6
     strings = [''.join(t) for k in range(0, L + 1) for t in itertools.product(ALPHA, repeat=k)]
@@ -175,6 +189,27 @@ def run(chk):
         return show_spans(digestion.digest(s, rs, mc, semi, lo, hi, comp, 'span', True))
 
     chk.correspond('digest', DRV, dig, dig_line, dig_impl, nontrivial_fn=lambda c, im: ';' in im)
+
+    # ---------------------------------------------------------------- (d) regex subset model: rule -> sites
+    def pat_wire(rx):
+        k = {'behind': 'b', 'ahead': 'a', 'aheadNot': 'n', 'notAhead': 'x', 'consume': 'c'}
+        return ';'.join(f'{k[a]}:{"".join(c)}' for a, c in translate_proteases.parse_regex(rx))
+
+    user_rx = ['(?<=K)(?=A)', '([KR])', '(D)(?=E)', 'K', '[DE]', '(?=[DE])', '(?<=[KR])(?!P)', '(?<=P)(?=[^P])', '(K)(?!P)']
+    rstrings = [''.join(t) for k in range(0, (5 if tier == 'quick' else 6) + 1) for t in itertools.product(ALPHA, repeat=k)]
+    rstrings = rstrings[::3] if tier == 'quick' else rstrings[::2]
+    rcases = [('sites_named', nm, s) for s in rstrings for nm in prot_table if nm not in unmodelled]
+    rcases += [('sites_pattern', rx, s) for s in rstrings[::2] for rx in user_rx]
+    for _ in range(300 if tier == 'quick' else 5000):
+        s = ''.join(rng.choice(AA) for _ in range(rng.randint(0, 60)))
+        rcases.append(('sites_named', rng.choice(list(prot_table)), s))
+        rcases.append(('sites_pattern', rng.choice(user_rx), s))
+    if tier == 'quick':
+        rcases = rcases[::2]
+    chk.correspond('regex_sites', DRV, rcases,
+                   lambda c: f'{c[0]}\t{c[1] if c[0] == "sites_named" else pat_wire(c[1])}\t{c[2]}',
+                   lambda c: ilist(digestion.get_cleavage_sites(c[2], c[1])),
+                   nontrivial_fn=lambda c, im: bool(im))
 
     # ---------------------------------------------------------------- oracle: implementation vs Lean spec set
     budget = 1 if not chk.broken() else 4
